@@ -73,7 +73,7 @@ func Pools(quick bool) []PoolDef {
 		}
 	}
 	hostPats = append(hostPats, "/", "/a", "/a/", "/{p0}", "/*{c0}")
-	hosts := []string{"", "a.b", "a.b:80", "a.b.", "b.a.b", "x.b", "a.x", "ab.b", "a.b.c", "c.a.b", "a.bb", "aa.b", "b", "a", ".b", "a.", "1.2.3.4", "[::1]:80", "A.B"}
+	hosts := []string{"", "a.b", "a.b:80", "a.b.", "a.b.:80", "b.a.b.:8080", "b.a.b", "x.b", "a.x", "ab.b", "a.b.c", "c.a.b", "a.bb", "aa.b", "b", "a", ".b", "a.", "1.2.3.4", "[::1]:80", "A.B"}
 	pools = append(pools, PoolDef{Name: "host", Patterns: hostPats, Paths: rsx.GenPaths([]string{"a", "b"}, 2), Hosts: hosts, K: k - 1 + boolInt(quick)*0})
 	// fan-out pools: N static siblings under "/" and under a parameter, N around the 50-child switch
 	for _, n := range []int{49, 50, 51, 52} {
